@@ -10,7 +10,7 @@ from .codec import B
 # default weights of op kinds; property profiles override some of them
 BASE_WEIGHTS = {
     "page": 4, "pages": 2, "links": 3, "batch": 3, "create": 2, "delete": 1, "addprefix": 1, "rmprefix": 1,
-    "move": 1, "rule": 1, "unrule": 1, "reopen": 1, "clear": 0, "again": 1,
+    "move": 1, "rule": 1, "unrule": 1, "reopen": 1, "clear": 0, "again": 1, "recreate": 0,
 }
 
 
@@ -91,7 +91,7 @@ def op_strategy(draw, v, led, weights, backend="file", history=()):
             continue
         if k == "unrule" and not led.rules:
             continue
-        if k == "reopen" and backend != "file":
+        if k in ("reopen", "recreate") and backend != "file":
             continue
         if k in ("rule", "unrule") and v.mode == "raw":
             continue
@@ -265,6 +265,8 @@ def op_strategy(draw, v, led, weights, backend="file", history=()):
         return ("unrule", draw(st.sampled_from(sorted(led.rules))))
     if kind == "reopen":
         return ("reopen",)
+    if kind == "recreate":
+        return ("recreate",)
     if kind == "clear":
         n = 0 if v.mode == "raw" else draw(st.sampled_from([0, 1, 2]))
         rules = []
